@@ -448,44 +448,45 @@ Qed.
 (** ** the refinement theorem *)
 Theorem refine_step s e s' r :
   RInv (abs s) → store_ok s → step s e = Some (s', r) →
-  (abs s' = abs s ∧ r = RNone) ∨ ∃ re, rstep (abs s) re = Some (abs s', r) ∧ (∀ ds, re = RvReload ds → e = EvReload ds) ∧ (∀ js, re = RvRestart js → e = EvRestart).
+  (abs s' = abs s ∧ r = RNone) ∨ ∃ re, rstep (abs s) re = Some (abs s', r) ∧ (∀ ds, re = RvReload ds → e = EvReload ds) ∧ (∀ js, re = RvRestart js → e = EvRestart)
+    ∧ (∀ rm, re = RvSave rm → rm = rmids (clear_req s)) ∧ (re = RvCancelAll → e = EvShutdownForce).
 Proof.
   intros Hinv Hst. unfold step.
   assert (Hinv' : RInv (abs (clear_req s))) by done.
   destruct e as [p v u|id|d|id|ds|id|id n|id n|id n o|id n|id|id| | | | | ]; simpl.
   - intros [= Heq]. right. exists (RvSchedule p (graph_ok (new_job (clear_req s) p (default zero_def (lookup_def (st_defs s) p)) v u))
                        (r_snap (abs_job (new_job (clear_req s) p (default zero_def (lookup_def (st_defs s) p)) v u)))).
-    split; [|by split]. simpl. rewrite <- (abs_schedule (clear_req s)). simpl. by rewrite Heq.
-  - intros [= Heq]. right. exists (RvCancel id). split; [|by split]. simpl. rewrite <- (abs_cancel_request (clear_req s)). by rewrite Heq.
-  - intros [= <- <-]. right. exists (RvTick d). split; [done|by split].
+    split; [|by repeat split]. simpl. rewrite <- (abs_schedule (clear_req s)). simpl. by rewrite Heq.
+  - intros [= Heq]. right. exists (RvCancel id). split; [|by repeat split]. simpl. rewrite <- (abs_cancel_request (clear_req s)). by rewrite Heq.
+  - intros [= <- <-]. right. exists (RvTick d). split; [done|by repeat split].
   - destruct (do_fire_timer (clear_req s) id) as [s1|] eqn:Hf; simpl; [|done]. intros [= <- <-].
-    right. exists (RvFire id). split; [|by split]. simpl. rewrite <- (abs_fire (clear_req s)). by rewrite Hf.
-  - intros [= <- <-]. right. exists (RvReload ds). split; [done|]. split; [by intros ds' [= ->]|done].
+    right. exists (RvFire id). split; [|by repeat split]. simpl. rewrite <- (abs_fire (clear_req s)). by rewrite Hf.
+  - intros [= <- <-]. right. exists (RvReload ds). split; [done|]. split; [by intros ds' [= ->]|by repeat split].
   - destruct (do_iter_begin (clear_req s) id) as [s1|] eqn:Hf; simpl; [|done]. intros [= <- <-].
-    left. split; [|by split]. by rewrite (abs_iter_begin _ _ _ Hf).
+    left. split; [|by repeat split]. by rewrite (abs_iter_begin _ _ _ Hf).
   - destruct (do_visit (clear_req s) id n) as [s1|] eqn:Hf; simpl; [|done]. intros [= <- <-].
-    left. split; [|by split]. by rewrite (abs_visit _ _ _ _ Hf).
+    left. split; [|by repeat split]. by rewrite (abs_visit _ _ _ _ Hf).
   - destruct (do_run_begin (clear_req s) id n) as [s1|] eqn:Hf; simpl; [|done]. intros [= <- <-].
-    left. split; [|by split]. by rewrite (abs_run_begin _ _ _ _ Hinv' Hf).
+    left. split; [|by repeat split]. by rewrite (abs_run_begin _ _ _ _ Hinv' Hf).
   - destruct (do_run_end (clear_req s) id n o) as [s1|] eqn:Hf; simpl; [|done]. intros [= <- <-].
-    left. split; [|by split]. by rewrite (abs_run_end _ _ _ _ _ Hinv' Hf).
+    left. split; [|by repeat split]. by rewrite (abs_run_end _ _ _ _ _ Hinv' Hf).
   - destruct (do_notify (clear_req s) id n) as [s1|] eqn:Hf; simpl; [|done]. intros [= <- <-].
-    left. split; [|by split]. by rewrite (abs_notify _ _ _ _ Hf).
+    left. split; [|by repeat split]. by rewrite (abs_notify _ _ _ _ Hf).
   - destruct (do_cancel_deliver (clear_req s) id) as [s1|] eqn:Hf; simpl; [|done]. intros [= <- <-].
-    left. split; [|by split]. by rewrite (abs_cancel_deliver _ _ _ Hf).
+    left. split; [|by repeat split]. by rewrite (abs_cancel_deliver _ _ _ Hf).
   - destruct (do_sched_return (clear_req s) id) as [s1|] eqn:Hf; simpl; [|done]. intros [= <- <-].
-    right. destruct (abs_sched_return _ _ _ Hf) as [ec Hec]. exists (RvComplete id ec). split; [|by split]. simpl.
+    right. destruct (abs_sched_return _ _ _ Hf) as [ec Hec]. exists (RvComplete id ec). split; [|by repeat split]. simpl.
     change (abs (clear_req s)) with (abs s) in Hec. by rewrite Hec.
-  - intros [= <- <-]. right. exists (RvSave (rmids (clear_req s))). split; [|by split]. simpl. by rewrite abs_save.
+  - intros [= <- <-]. right. exists (RvSave (rmids (clear_req s))). split; [simpl; by rewrite abs_save|]. repeat split; try done. by intros rm [= <-].
   - destruct (do_restart (clear_req s)) as [s1|] eqn:Hf; simpl; [|done]. intros [= <- <-].
-    destruct (abs_restart (clear_req s) s1 Hinv' Hst Hf) as [js Hjs]. right. exists (RvRestart js). split; [|by split].
+    destruct (abs_restart (clear_req s) s1 Hinv' Hst Hf) as [js Hjs]. right. exists (RvRestart js). split; [|by repeat split].
     simpl. change (abs (clear_req s)) with (abs s) in Hjs. by rewrite Hjs.
   - destruct (do_shutdown_begin (clear_req s)) as [s1|] eqn:Hf; simpl; [|done]. intros [= <- <-].
-    right. exists RvShutdown. split; [|by split]. simpl. by rewrite (abs_shutdown_begin _ _ Hf).
+    right. exists RvShutdown. split; [|by repeat split]. simpl. by rewrite (abs_shutdown_begin _ _ Hf).
   - destruct (do_shutdown_force (clear_req s)) as [s1|] eqn:Hf; simpl; [|done]. intros [= <- <-].
-    right. exists RvCancelAll. split; [|by split]. simpl. by rewrite (abs_shutdown_force _ _ Hf).
+    right. exists RvCancelAll. split; [|by repeat split]. simpl. by rewrite (abs_shutdown_force _ _ Hf).
   - destruct (do_shutdown_return (clear_req s)) as [s1|] eqn:Hf; simpl; [|done]. intros [= <- <-].
-    right. exists (RvSave (rmids (clear_req s))). split; [|by split]. simpl. by rewrite (abs_shutdown_return _ _ Hf).
+    right. exists (RvSave (rmids (clear_req s))). split; [simpl; by rewrite (abs_shutdown_return _ _ Hf)|]. repeat split; try done. by intros rm [= <-].
 Qed.
 
 (** the store and the clock are touched by very few events *)
